@@ -131,6 +131,18 @@ impl<C: Config> Engine<C> {
         )
         .await;
 
+        // Own the phase lock before anything else happens: the timestamp must
+        // not move and no write batch may exist while readers are still
+        // active or while this call can still be abandoned.
+        let guard = self
+            .computation_graph
+            .database
+            .sync
+            .phase_mutex
+            .clone()
+            .write_owned()
+            .await;
+
         let mut write_buffer = self
             .computation_graph
             .database
@@ -158,15 +170,6 @@ impl<C: Config> Engine<C> {
             .sync
             .timestamp_map
             .insert((), Timestamp(new_timestamp), &mut write_buffer)
-            .await;
-
-        let guard = self
-            .computation_graph
-            .database
-            .sync
-            .phase_mutex
-            .clone()
-            .write_owned()
             .await;
 
         (write_buffer, ActiveInputSessionGuard(Arc::new(guard)))
